@@ -358,6 +358,52 @@ def tokenize(data, width_of):
     return out
 
 
+def print_tokens(toks):
+    """tokens (as nested lists [code, args...]) -> character stream; inverse of tokenize"""
+    out = []
+    for t in toks:
+        k = t[0]
+        if k == T_CH:
+            out.append(chr(t[1]))
+        elif k == T_CUP:
+            out.append("\x1b[%d;%dH" % (t[1], t[2]))
+        elif k == T_HOME:
+            out.append("\x1b[H")
+        elif k == T_CR:
+            out.append("\r")
+        elif k == T_LF:
+            out.append("\n")
+        elif k == T_BS:
+            out.append("\b")
+        elif k in (T_CUU, T_CUD, T_CUF):
+            out.append("\x1b[%d%s" % (t[1], {T_CUU: "A", T_CUD: "B", T_CUF: "C"}[k]))
+        elif k == T_SGR:
+            out.append("\x1b[" + ";".join(str(p) for p in t[1:]) + "m")
+        elif k == T_EL:
+            out.append("\x1b[K")
+        elif k == T_IRM_ON:
+            out.append("\x1b[4h")
+        elif k == T_IRM_OFF:
+            out.append("\x1b[4l")
+        elif k == T_SO:
+            out.append("\x0e")
+        elif k == T_SI:
+            out.append("\x0f")
+        elif k == T_IBM_ON:
+            out.append("\x1b[11m")
+        elif k == T_IBM_OFF:
+            out.append("\x1b[10m")
+        elif k == T_HIDE:
+            out.append("\x1b[?25l")
+        elif k == T_SHOW:
+            out.append("\x1b[?25h")
+        elif k == T_G1:
+            out.append("\x1b)0")
+        else:
+            raise core.MachineryError("cannot print token %r" % (t,))
+    return "".join(out)
+
+
 # ----------------------------------------------------------------------------------------------
 # the implementation under test
 # ----------------------------------------------------------------------------------------------
@@ -808,8 +854,21 @@ class C04(core.Check):
         return self._memo[1]
 
     def run_impl(self, case):
+        if case.get("kind") == "term":
+            return self.run_term(case)
         res, _aux = self.history(case)
         return res
+
+    @staticmethod
+    def run_term(case):
+        """terminal-only case: the Python reference terminal on a printed token stream (ties RefTerm to TermRef.v
+        also on streams draw_screen never writes: wrapping, scrolling, LF, relative moves at the edges)"""
+        from urwid import str_util
+        data = print_tokens(case["toks"])
+        term = RefTerm(case["cols"], case["rows"])
+        term.feed(data, str_util.get_char_width)
+        toks = tokenize(data, str_util.get_char_width)
+        return {"toks": toks, "term": term.snapshot()}
 
     # ---------- wire ----------
     @staticmethod
@@ -835,6 +894,9 @@ class C04(core.Check):
     def encode(self, case):
         """history -> ints for sub-model 1 of DrawScreen.run_case (built from the canvases actually drawn)"""
         from urwid.display.common import AttrSpec
+        if case.get("kind") == "term":
+            from urwid import str_util
+            return [2, case["cols"], case["rows"]] + tokenize(print_tokens(case["toks"]), str_util.get_char_width)
         _res, aux = self.history(case)
         scr = aux["screen"]
         wof = width_fn(case["enc"])
@@ -889,6 +951,9 @@ class C04(core.Check):
         return out
 
     def decode(self, case, ints):
+        if case.get("kind") == "term":
+            from urwid import str_util
+            return {"toks": tokenize(print_tokens(case["toks"]), str_util.get_char_width), "term": list(ints)}
         it = iter(ints)
         frames = []
         try:
@@ -908,6 +973,8 @@ class C04(core.Check):
 
     # ---------- oracle ----------
     def oracle(self, case, res):
+        if case.get("kind") == "term":
+            return []
         _res, aux = self.history(case)
         return self.judge(case, aux)
 
@@ -1271,8 +1338,83 @@ class C04(core.Check):
         case["frames"] = frames
         return case
 
+    def gen_term_case(self, rng):
+        cols, rows = rng.choice([1, 2, 3, 4, 5]), rng.choice([1, 2, 3])
+        toks = []
+        for _ in range(rng.choice([3, 8, 15, 30])):
+            r = rng.random()
+            if r < 0.45:
+                ch = rng.choice(["a", "b", " ", "\u4e16", "\u754c", "x", "\u0301"])
+                toks.append([T_CH, ord(ch), 0])
+            elif r < 0.55:
+                toks.append([T_CUP, rng.choice([0, 1, 2, 3, 9]), rng.choice([0, 1, 2, 3, 9])])
+            elif r < 0.60:
+                toks.append([rng.choice([T_CR, T_LF, T_BS, T_BS, T_HOME])])
+            elif r < 0.70:
+                toks.append([rng.choice([T_CUU, T_CUD, T_CUF]), rng.choice([0, 1, 2, 7])])
+            elif r < 0.80:
+                n = rng.choice([0, 1, 2, 3])
+                ps = []
+                for _ in range(n):
+                    p = rng.choice([0, 1, 3, 4, 5, 7, 9, 31, 39, 44, 49, 93, 104, 38, 48, 5, 2, 200, 17])
+                    ps.append(p)
+                    if p in (38, 48) and rng.random() < 0.7:
+                        ps += rng.choice([[5, 200], [2, 1, 2, 3], [5], [2, 9]])
+                if ps in ([10], [11]):
+                    ps = [0]
+                toks.append([T_SGR] + ps)
+            elif r < 0.86:
+                toks.append([T_EL])
+            elif r < 0.93:
+                toks.append([rng.choice([T_IRM_ON, T_IRM_OFF, T_IRM_ON])])
+            else:
+                toks.append([rng.choice([T_SO, T_SI, T_IBM_ON, T_IBM_OFF, T_HIDE, T_SHOW, T_G1])])
+        return {"kind": "term", "cols": cols, "rows": rows, "toks": toks}
+
+    def exhaustive_rows(self, cols):
+        """every row of `cols` columns over a small alphabet x two attributes (default, standout)"""
+        alphabet = [("a", 1), (" ", 1), ("\u4e16", 2)]
+        attrs = [0, 3]
+        out = []
+
+        def rec(col, cells):
+            if col == cols:
+                out.append(list(cells))
+                return
+            for ch, w in alphabet:
+                if col + w <= cols:
+                    for a in attrs:
+                        cells.append((a, 0, ch, w))
+                        rec(col + w, cells)
+                        cells.pop()
+        rec(0, [])
+        return out
+
+    def exhaustive_cases(self, rng, maxcols):
+        """single frames over garbage: every small row as the only / the bottom / a middle row"""
+        base = {"enc": "utf-8", "colors": 16, "bib": 0, "bbb": 0, "partial": 0, "palette": PALETTE, "attrs": self.ATTRS}
+        for cols in range(1, maxcols + 1):
+            for cells in self.exhaustive_rows(cols):
+                runs = []
+                for a, cs, ch, _w in cells:
+                    if runs and runs[-1][0] == a:
+                        runs[-1][2] += ch
+                    else:
+                        runs.append([a, cs, ch])
+                filler = [[0, 0, "b" * cols]]
+                for bce in (1, 0):
+                    for shape in ("only", "bottom", "top"):
+                        rws = {"only": [runs], "bottom": [filler, runs], "top": [runs, filler]}[shape]
+                        c = dict(base, bce=bce)
+                        c["frames"] = [{"op": "draw", "cols": cols, "rows": len(rws), "canvas": ["rows", rws],
+                                        "cursor": None, "scramble": rng.choice([0, 1, 2])}]
+                        yield c
+
     def cases(self, rng, tier):
         k = 1 if tier == "quick" else 8
+        yield from self.exhaustive_cases(rng, 4 if tier == "quick" else 5)
+        for _ in range(600 * k):
+            yield self.gen_term_case(rng)
         for _ in range(900 * k):
             yield self.gen_case(rng, "tiny")
         for _ in range(1500 * k):
@@ -1287,6 +1429,8 @@ class C04(core.Check):
             yield self.gen_case(rng, rng.choice(["tiny", "tiny", "small"]), partial=rng.random() < 0.1)
 
     def shrink_candidates(self, case):
+        if case.get("kind") == "term":
+            return
         frames = case["frames"]
         for i in range(len(frames)):
             c = dict(case)
@@ -1323,6 +1467,11 @@ class C04(core.Check):
     def distribution(self, case, res, dist):
         def inc(k, n=1):
             dist[k] = dist.get(k, 0) + n
+        if case.get("kind") == "term":
+            inc("kind:terminal-only")
+            if res["term"][6]:
+                inc("terminal-only:scrolled")
+            return
         inc("enc:" + case["enc"])
         inc("colors:%d" % case["colors"])
         inc("bce:%d" % case["bce"])
@@ -1360,6 +1509,8 @@ class C04(core.Check):
         return heads
 
     def nontrivial(self, case, res):
+        if case.get("kind") == "term":
+            return bool(res["toks"])
         return any(f["toks"] for f in res["frames"])
 
     def signature(self, case, msg):
